@@ -161,6 +161,7 @@ def run(tier, replay):
         # the periodic serialisation in the middle of a read (interval 1 s), many groups, a slow consumer
         for n in ([300] if tier == "quick" else [300, 45, 1200]):
             cases.append({"id": 0, "nfiles": 1, "lines": [n], "limit": 2, "sched": [], "free": True, "interim": True, "model_counted": -1})
+        cases.append({"id": 0, "nfiles": 1, "lines": [300], "limit": 2, "sched": [], "free": True, "interim": True, "same": True, "model_counted": -1})
         cases.append({"id": 0, "nfiles": 130, "lines": [rng.choice([2, 3, 5]) for _ in range(130)], "limit": 130, "sched": [], "free": True, "model_counted": -1})
         # a session in which nothing can be read at all (open finding KF_NoReadableFile)
         cases.append({"id": 0, "nfiles": 0, "lines": [], "limit": 2, "sched": [], "free": True, "onlydir": True, "model_counted": -1})
@@ -307,6 +308,19 @@ def run(tier, replay):
             rep = json.load(open(ro))
             if rep["counted"] != rep["expected"]:
                 V.violation("with a reporter rendering interim results the final result counts %d of %d lines" % (rep["counted"], rep["expected"]), rep)
+        # many servers reporting the same groups at the same moment
+        mo = os.path.join(wd, "mergestress.json")
+        rc, out = vlib.go_test(wd, "./internal/clients/handlers", OVC, "TestC06MergeStress", env={"VERIF_OUT": mo, "VERIF_N": 4000 if tier == "quick" else 60000}, timeout=900)
+        if rc != 0 and "fatal error: concurrent map" in out:
+            i = out.index("fatal error: concurrent map")
+            V.violation("the client process died while 16 handlers merged partial results for the same groups: " + out[i:i + 60].splitlines()[0],
+                        {"output": out[i:i + 1500]})
+        elif rc != 0 or not os.path.exists(mo):
+            raise vlib.Inconclusive("merge stress harness failed\n" + out[-2500:])
+        else:
+            ms = json.load(open(mo))
+            if ms["bad"]:
+                V.violation("16 handlers merging partial results for the same groups: " + ms["bad"], ms)
         cov = {"interim_reports_during_merges": rep["reports"], "states": states, "transitions": trans, "session_traces_checked_against_MaprSchedTrace": tv_done, "session_traces_accepted": tv_acc, "trace_binding_selftest": binding_selftest, "traces_validated_against_impl": followed_full + dfollowed + len(ccases),
                "evaluations": len(cases) + len(dcases) + len(ccases),
                "distinct_nontrivial": sum(1 for c in cases if not c["free"]) + sum(1 for c in ccases if c["sched"]),
